@@ -8,6 +8,7 @@ import (
 	"sync"
 	"sync/atomic"
 	"testing"
+	"time"
 
 	"github.com/anishathalye/porcupine"
 	"github.com/mit-pdos/go-journal/common"
@@ -367,30 +368,62 @@ func TestC18Conc(t *testing.T) {
 		sz := uint64(kvsDiskSize)
 		d := NewDisk(sz)
 		d.SetRecord(false)
+		// some keys already hold values from a small pool when the store is opened (they are on the device, not in
+		// the journal's memory), and puts draw from the same pool: a put may find its own value already there
+		init := map[uint64]uint32{}
+		for key := uint64(common.LOGSIZE); key < common.LOGSIZE+4; key++ {
+			if tg := uint32(rapid.IntRange(0, 3).Draw(t, "init")); tg != 0 {
+				init[key] = tg
+				d.Write(key, valBlock(tg))
+			}
+		}
 		k := kvs.MkKVS(d, sz)
 		defer k.Delete()
 		nclients := rapid.IntRange(2, 4).Draw(t, "nclients")
-		var tag uint32
+		tag := uint32(100)
 		progs := make([][]kvIn, nclients)
 		for c := range progs {
 			n := rapid.IntRange(2, 6).Draw(t, "nops")
 			for i := 0; i < n; i++ {
 				if rapid.Bool().Draw(t, "isput") {
 					p := genPut(t, common.LOGSIZE+4, &tag, 4)
+					for j := range p.Tags {
+						if rapid.Bool().Draw(t, "pooled") {
+							p.Tags[j] = uint32(rapid.IntRange(1, 3).Draw(t, "pool"))
+						}
+					}
 					progs[c] = append(progs[c], kvIn{Put: &p})
 				} else {
 					progs[c] = append(progs[c], kvIn{Get: rapid.Uint64Range(common.LOGSIZE, common.LOGSIZE+3).Draw(t, "key")})
 				}
 			}
 		}
+		// one client may be held at one of its disk accesses (a slow device) until the others are done
+		var pause *DiskPause
+		if rapid.IntRange(0, 2).Draw(t, "pause") > 0 {
+			pause = NewDiskPause(rapid.IntRange(0, 5).Draw(t, "access"), 5*time.Millisecond)
+			d.SetHook(pause.Hook)
+			defer d.SetHook(nil)
+		}
 		var clock int64
 		var mu sync.Mutex
 		var ops []porcupine.Operation
 		var wg sync.WaitGroup
+		var others sync.WaitGroup
+		others.Add(nclients - 1)
 		for c := range progs {
 			wg.Add(1)
 			go func(c int) {
 				defer wg.Done()
+				if pause != nil {
+					if c == 0 {
+						pause.Enter()
+						defer pause.Reach()
+					} else {
+						defer others.Done()
+						<-pause.Reached()
+					}
+				}
 				for _, in := range progs[c] {
 					call := atomic.AddInt64(&clock, 1)
 					var out interface{}
@@ -411,7 +444,13 @@ func TestC18Conc(t *testing.T) {
 				}
 			}(c)
 		}
+		if pause != nil {
+			go func() { others.Wait(); pause.Release() }()
+		}
 		wg.Wait()
+		if pause != nil && pause.Paused.Load() {
+			St.Class("conc_with_a_client_held_at_a_disk_access")
+		}
 		// final observation of every key, after all clients returned
 		for key := uint64(common.LOGSIZE); key < common.LOGSIZE+4; key++ {
 			call := atomic.AddInt64(&clock, 1)
@@ -422,7 +461,9 @@ func TestC18Conc(t *testing.T) {
 			}
 			ops = append(ops, porcupine.Operation{ClientId: nclients, Input: kvIn{Get: key}, Call: call, Output: tg, Return: atomic.AddInt64(&clock, 1)})
 		}
-		res := porcupine.CheckOperations(kvModel, ops)
+		model := kvModel
+		model.Init = func() interface{} { return copyMap(init) }
+		res := porcupine.CheckOperations(model, ops)
 		St.Eval(1)
 		overlap := overlapping(ops)
 		if overlap > 0 {
@@ -456,4 +497,142 @@ func describeOps(m porcupine.Model, ops []porcupine.Operation) []string {
 		s = append(s, fmt.Sprintf("c%d [%d,%d] %s", o.ClientId, o.Call, o.Return, m.DescribeOperation(o.Input, o.Output)))
 	}
 	return s
+}
+
+// Concurrent callers and a crash: a put that returned true is on the device at that moment, whatever the
+// other callers were doing (including multi-puts too large for the journal, which fail).  Each small client owns
+// its keys, so the value a key must have in an image taken at the acknowledgement is known.
+func TestC18ConcCrash(t *testing.T) {
+	rapid.Check(t, func(t *rapid.T) {
+		sz := uint64(common.LOGSIZE + 640)
+		d := NewDisk(sz)
+		k := kvs.MkKVS(d, sz)
+		nsmall := rapid.IntRange(1, 4).Draw(t, "smallclients")
+		nbigfail := rapid.IntRange(0, 200).Draw(t, "failingbigputs")
+		nfailers := rapid.IntRange(1, 2).Draw(t, "failingclients")
+		nbigok := rapid.IntRange(0, 3).Draw(t, "bigputs")
+		type ack struct {
+			Client    int      `json:"client"`
+			Keys      []uint64 `json:"keys"`
+			Tag       uint32   `json:"tag"`
+			Call, Ret int      // trace positions
+		}
+		progs := make([][]kvPut, nsmall)
+		tag := uint32(0)
+		for c := range progs {
+			for i := 0; i < rapid.IntRange(5, 60).Draw(t, "nputs"); i++ {
+				tag++
+				var p kvPut
+				for j := 0; j < rapid.IntRange(1, 3).Draw(t, "npairs"); j++ {
+					p.Keys = append(p.Keys, common.LOGSIZE+uint64(10*c+rapid.IntRange(0, 9).Draw(t, "key")))
+					p.Tags = append(p.Tags, tag)
+				}
+				progs[c] = append(progs[c], p)
+			}
+		}
+		var mu sync.Mutex
+		var acks []ack
+		var wg sync.WaitGroup
+		var bigFailed, bigOK int32
+		var smallFalse int32
+		for c := range progs {
+			wg.Add(1)
+			go func(c int) {
+				defer wg.Done()
+				for _, p := range progs[c] {
+					call := d.Mark()
+					ok := k.MultiPut(p.pairs())
+					ret := d.Mark()
+					if !ok {
+						atomic.AddInt32(&smallFalse, 1)
+						continue
+					}
+					mu.Lock()
+					acks = append(acks, ack{c, p.Keys, p.Tags[0], call, ret})
+					mu.Unlock()
+				}
+			}(c)
+		}
+		// the oversized puts are built once: the callers only differ in when they hit the journal
+		var bigPairs, okPairs []kvs.KVPair
+		for j := 0; j < 520; j++ {
+			bigPairs = append(bigPairs, kvs.KVPair{Key: common.LOGSIZE + 100 + uint64(j), Val: valBlock(5000)})
+		}
+		okPairs = bigPairs[:200]
+		for f := 0; f < nfailers; f++ {
+			wg.Add(1)
+			go func(f int) {
+				defer wg.Done()
+				for i := 0; i < nbigfail+nbigok; i++ {
+					ps := bigPairs
+					if f == 0 && nbigok > 0 && i%(nbigfail/(nbigok+1)+1) == 0 && int(atomic.LoadInt32(&bigOK)) < nbigok {
+						ps = okPairs
+					}
+					if k.MultiPut(ps) {
+						atomic.AddInt32(&bigOK, 1)
+					} else {
+						atomic.AddInt32(&bigFailed, 1)
+					}
+				}
+			}(f)
+		}
+		wg.Wait()
+		k.Delete()
+		trace := d.Trace()
+		if smallFalse > 0 {
+			failf(t, "C18", nil, "%d small multi-puts returned false", smallFalse)
+		}
+		// which acknowledgements to verify: those during which the journal's header block was not written (none in a
+		// correct run), and a sample of the others
+		hdrWrites := make([]int, len(trace)+1) // prefix count of writes to block 0
+		for i, e := range trace {
+			hdrWrites[i+1] = hdrWrites[i]
+			if !e.Barrier && e.Addr == 0 {
+				hdrWrites[i+1]++
+			}
+		}
+		salt := rapid.Uint64().Draw(t, "salt")
+		nchecked, suspicious := 0, 0
+		for i, a := range acks {
+			noHdr := hdrWrites[a.Ret] == hdrWrites[a.Call]
+			if noHdr {
+				suspicious++
+			}
+			if !noHdr && Hash(salt, i)%uint64(len(acks)/10+1) != 0 {
+				continue
+			}
+			nchecked++
+			for _, v := range Variants(trace, a.Ret, salt, 0)[:min(2, len(Variants(trace, a.Ret, salt, 0)))] {
+				img := ImageOf(d.size, d.init, trace, a.Ret, v.Drop)
+				img.SetRecord(false)
+				k2 := kvs.MkKVS(img, sz)
+				var bad string
+				for _, key := range a.Keys {
+					p, ok := k2.Get(key)
+					tg, clean := valTag(p.Val)
+					if !ok || !clean || tg != a.Tag {
+						bad = fmt.Sprintf("key %d holds tag %d (clean=%v) instead of %d", key, tg, clean, a.Tag)
+						break
+					}
+				}
+				k2.Delete()
+				if bad != "" {
+					failf(t, "C18", map[string]any{"ack": a, "variant": v.Name, "failed_big_puts": bigFailed, "small_clients": nsmall},
+						"a multi-put returned true, but in the image of the device at that moment (%s) %s: the put is not durable (%d multi-puts too large for the journal failed meanwhile)",
+						v.Name, bad, bigFailed)
+				}
+			}
+		}
+		St.Eval(nchecked)
+		St.ClassN("acknowledgements_verified_in_a_crash_image", nchecked)
+		St.ClassN("failed_oversized_puts_running_alongside", int(bigFailed))
+		if bigFailed > 0 && nchecked > 0 {
+			St.NT(Hash("kvconccrash", progs, nbigfail, nbigok, salt))
+			if St.WantSample(true) {
+				St.Sample(map[string]any{"kind": "concurrent puts, image at an acknowledgement", "small_clients": nsmall, "acks": len(acks),
+					"verified": nchecked, "failed_big_puts": bigFailed, "ok_big_puts": bigOK, "trace_events": len(trace)}, true)
+			}
+		}
+		_ = suspicious
+	})
 }
